@@ -328,6 +328,11 @@ class SymArray(np.ndarray):
                 return getattr(ufunc, method)(*conc, out=out, **kwargs)
             for o in outs:
                 if isinstance(o, np.ndarray) and o.dtype != object:
+                    # `concrete_array op= x`: possible when x holds exact numbers only (no free symbol): the real in-place update is done on the
+                    # caller's array (aliasing is the point: the array may be shared or cached)
+                    if not any(isinstance(x, np.ndarray) and x.dtype == object and any(is_symbolic(v) for v in x.reshape(-1)) for x in plain):
+                        conc = [np.asarray([float(v) for v in x.reshape(-1)], dtype=np.float64).reshape(x.shape) if isinstance(x, np.ndarray) and x.dtype == object else x for x in plain]
+                        return getattr(ufunc, method)(*conc, out=out, **kwargs)
                     raise Unsupported("in-place symbolic result into a concrete numeric array")
         f = _UNARY.get(ufunc) if ufunc.nin == 1 else _BINARY.get(ufunc)
         if ufunc is np.matmul:
